@@ -746,7 +746,12 @@ def d10_question_in_for(f, ordinal, ret_ty):
     out = t
     for (a, b, stmt) in reversed(edits):
         lead = re.match(r'\s*', stmt).group(0)
-        out = out[:a] + lead + 'if let Err(verif_e) = ' + stmt.strip() + ' { verif_ret = Some(Err(verif_e)); break; }' + out[b:]
+        asg = re.match(r'(\w+)\s*(\+=|-=|=)\s*(.*)$', stmt.strip(), re.S)
+        if asg:
+            # `X op= E?;`  ->  match E { Ok(v) => { X op= v; } Err(e) => { flag; break; } }
+            out = (out[:a] + lead + 'match ' + asg.group(3) + ' { Ok(verif_n) => { ' + asg.group(1) + ' ' + asg.group(2) + ' verif_n; } Err(verif_e) => { verif_ret = Some(Err(verif_e)); break; } }' + out[b:])
+        else:
+            out = out[:a] + lead + 'if let Err(verif_e) = ' + stmt.strip() + ' { verif_ret = Some(Err(verif_e)); break; }' + out[b:]
     delta = len(out) - len(t)
     bc2 = bc + delta
     out = out[:bc2 + 1] + '\n' + ind + 'if let Some(verif_r) = verif_ret { return verif_r; }' + out[bc2 + 1:]
